@@ -259,13 +259,13 @@ theorem saveBlocks_ok : ∀ q k, (q, k) ∈ saveBlocks → BlkOK q k := by
     · simp [exec, hm, evalCond, hc]
   · refine ⟨by decide, by decide, fun env s hm _ => ⟨by simp [fM], by simp [fM], by simp [fM], by simp [fM], by simp [fM], fun _ _ => ?_⟩⟩
     have := cs_console_cmd_txt "cmd" ["_"] (.lit "mv -f /etc/network/packet-filter.new /etc/network/packet-filter")
-      (linuxCheck .change ;; .ite .joined "$Cut.2 != \"\"" (linuxCheck .change) .skip ;;
+      (linuxCheck .change ;; .ite .joined "$v.2 != \"\"" (linuxCheck .change) .skip ;;
        GetCmdOutput .probe (.lit "echo $?") ["echo $?"] ;;
        .ite (.not (.flag .status0)) "$r.conn.GetCmdOutput(\"echo $?\") != \"0\\n\""
          (.abort ["%s failed (exit status)", "_"]) .skip) (by decide) env s hm
     rw [show exec (linuxCmd .change (.lit "mv -f /etc/network/packet-filter.new /etc/network/packet-filter") ["_"]) env s
         = exec (.call "cmd" ["_"] (Send .change (.lit "mv -f /etc/network/packet-filter.new /etc/network/packet-filter") ;;
-            (linuxCheck .change ;; .ite .joined "$Cut.2 != \"\"" (linuxCheck .change) .skip ;;
+            (linuxCheck .change ;; .ite .joined "$v.2 != \"\"" (linuxCheck .change) .skip ;;
              GetCmdOutput .probe (.lit "echo $?") ["echo $?"] ;;
              .ite (.not (.flag .status0)) "$r.conn.GetCmdOutput(\"echo $?\") != \"0\\n\""
                (.abort ["%s failed (exit status)", "_"]) .skip))) env s from rfl, this]
